@@ -313,6 +313,10 @@ W_NoPanic == wpc # "oob"
 W_Mutex == Cardinality({t \in Tasks : et[t].pc = "emit"}) <= 1
 W_TokenOrder == \A t \in Tasks : et[t].pc = "emit" => (et[t].id = counter + 1 \/ counter = CANCEL)
 W_CancelSticks == [][\A t \in Tasks : (counter = CANCEL /\ et[t].pc = "wait") => et'[t].pc # "emit"]_vars
+\* C18: ownership. The caller goroutine touches the shared bitstream and the block buffers only while no task exists;
+\* a task touches the shared bitstream only between acquiring the token and finishing; its buffers are its own.
+W_Ownership == /\ (wpc # "join" => \A t \in Tasks : et[t].pc = "idle")
+               /\ \A t, u \in Tasks : (t # u /\ et[t].pc # "idle" /\ et[u].pc # "idle") => et[t].id # et[u].id
 \* C08: a failure is reported before any success of Close
 W_FailureReported == (torn \/ \E t \in Tasks : et[t].err) => ~closeOK
 \* C17
